@@ -11,6 +11,7 @@ RULE = ("random DAG programs (3-40 instructions, 1-6 leaves, any subset requirin
         "invocation and consumer-before-operand order in every sweep; distinct key = structural hash (ops + wiring); non-trivial = at least "
         "one value consumed more than once or one op using a tensor twice, and >= 5 instructions")
 RULE += (' Added after the seeded rounds: layer templates whose parameters are program leaves (bias exactly zero half of the time), conv1d with bias, dilated constant convolutions, inference-then-training batch norm, cross-entropy, operand lists cleared after concat/stack, a constant advanced by += / *= after the op that used it.')
+RULE += (" Round 6 / reach monitor: four backward sweeps over one graph with one and the same upstream-gradient tensor (k-th sweep = k times the first); functional batch norm with training=False and no statistics inside programs.")
 ASSUMPTIONS = ["FD reference differentiates the library's own float64 forward of the whole program",
                "piecewise-linear ops (relu, max) are only generated with a 0.05 margin from their kinks; ties are C01/C02's business",
                "values are kept below 50 in magnitude by construction so that FD is well conditioned"]
